@@ -276,6 +276,8 @@ def c16_rf16(run):
     rf_proto.rf16k(run)
     rf_iface.rf42b(run)
     rf_inline.rf56(run)
+    rf_proto.rf66(run)
+    run.min_instances('RF66', 4)
     rf_dispatch.rf7g(run)
     run.min_instances('RF7g', 60)
 
